@@ -1721,6 +1721,7 @@ class Circuit(Unitary, StateVectorMap, Collection[Operation]):
         if len(self[point].location.intersection(op.location)) == 0:
             raise ValueError("Point's qudit is not in operation's location.")
 
+        point = self.normalize_point(point)
         old_op = self._circuit[point[0]][point[1]]
         if old_op is not None and set(old_op.location) == set(op.location):
             if old_op.location[0] != op.location[0]:
@@ -1810,6 +1811,7 @@ class Circuit(Unitary, StateVectorMap, Collection[Operation]):
         move: bool = False,
     ) -> None:
         """Replace the operation at 'point' with `circuit`."""
+        point = self.normalize_point(point)
         op = self.pop(point)
 
         if circuit.num_qudits != op.num_qudits:
